@@ -35,6 +35,10 @@ def cases(tier, seed, PROP):
         # forms of the set name: none, empty text, text; and a set given (another) name after its objects were added
         for k in range(40 if tier == 'quick' else 600):
             yield {'stratum': 'set-name-forms', 'index': k, 'kind': 'setnames'}
+    if PROP in ('C04', 'C05'):
+        # value lists edited IN PLACE (list.pop / append / clear on attribute.value) between two writes
+        for k in range(40 if tier == 'quick' else 800):
+            yield {'stratum': 'inplace-edit-then-rewrite', 'index': k, 'kind': 'inplace'}
     if PROP == 'C05':
         # "at creation or later": values re-assigned after a first write, incl. values of another kind (text <-> number <->
         # reference <-> date-time) -- the second file must carry what is assigned now
@@ -106,7 +110,7 @@ def _build_spec(case, PROP, r):
     if k == 'retry':
         from vf.checks import c20
         pool = ['zone', 'axis', 'long_name', 'equipment', 'tool', 'parameter', 'computation', 'comment', 'message', 'process',
-                'calibration_coefficient', 'calibration_measurement', 'well_reference_point', 'path', 'splice', 'no_format']
+                'calibration_coefficient', 'calibration_measurement', 'well_reference_point', 'path', 'splice', 'no_format', 'origin']
         ts = r.sample(pool, r.choice([1, 2, 3]))
         sp = metagen.meta_spec(r, avoid=avoid, n_objects=r.choice([0, 2, 4]), later_p=0.0,
                                types=[t for t in ['zone', 'axis', 'equipment', 'comment', 'long_name', 'group'] if t not in ts or r.random() < 0.3])
@@ -124,8 +128,14 @@ def _build_spec(case, PROP, r):
                 continue
             bad['lf'] = 0
             bad['expect'] = 'reject'
+            if t == 'origin':
+                bad['set_name'] = 'SET-OF-REJECTED'
             sn = bad.get('set_name')
             sp['ops'].append(bad)
+            if t == 'origin' or r.random() < 0.3:
+                # never repeated: the set the rejected call was going to fill stays empty
+                case['never_retried'] = True
+                continue
             for j in range(r.choice([1, 1, 2])):
                 good = {'op': t, 'name': r.choice([bad['name'], f'RETRIED-{t}-{j}']), 'attrs': {}, 'lf': 0}
                 if sn:
@@ -158,6 +168,17 @@ def _build_spec(case, PROP, r):
         for i in r.sample(made, r.choice([0, 1, 2])):
             op = sp['ops'][i]
             sp['ops'].append({'op': 'rename_set', 'target': i, 'value': f'RENAMED-{op["op"]}-{op.get("set_name") or "UNNAMED"}'})
+        return sp
+    if k == 'inplace':
+        from vf.checks import c14
+        sp = c14.base_spec(r, avoid)
+        chs = [i for i, o in enumerate(sp['ops']) if o['op'] == 'channel']
+        sp['ops'].append({'op': 'comment', 'name': 'IP-COMMENT', 'attrs': {'text': ['one', 'two', 'three']}})
+        sp['ops'].append({'op': 'axis', 'name': 'IP-AXIS', 'attrs': {'coordinates': [1.5, 2.5, 3.5]}})
+        sp['ops'].append({'op': 'long_name', 'name': 'IP-LN', 'attrs': {'quantity': 'q', 'conditions': ['a', 'b'], 'entity_part': ['p']}})
+        sp['ops'].append({'op': 'tool', 'name': 'IP-TOOL', 'attrs': {'channels': [{'$ref': c_} for c_ in chs[:2]]}})
+        sp['ops'].append({'op': 'group', 'name': 'IP-GROUP', 'attrs': {'object_list': [{'$ref': c_} for c_ in chs[:3]]}})
+        sp['ops'].append({'op': 'computation', 'name': 'IP-COMP', 'attrs': {'values': [1.0, 2.0, 3.0, 4.0]}})
         return sp
     if k == 'rewrite':
         from vf.checks import c14
@@ -302,6 +323,25 @@ def run_case(case, PROP):
         obs[k] = obs.get(k, 0) + n
 
     later_ops = None
+    if case['kind'] == 'inplace':
+        from vf import expect as E
+        cands = []
+        for i, o in enumerate(sp['ops']):
+            if o['op'] not in schema.TYPES or o['op'] == 'frame':
+                continue
+            table = schema.attr_table(o['op'])
+            for kw, v in o.get('attrs', {}).items():
+                if kw not in table or not table[kw][2]:
+                    continue
+                val = E.interpret(o['op'], kw, v)[0]
+                if isinstance(val, list) and val and not any(isinstance(x, list) for x in val):
+                    cands.append((i, o['op'], kw, len(val)))
+        later_ops = []
+        for i, t, kw, n in r.sample(cands, min(len(cands), r.choice([1, 2, 3]))):
+            how = r.choice(['pop', 'dup', 'clear', 'pop']) if n > 1 else r.choice(['dup', 'clear', 'pop'])
+            later_ops.append({'op': 'inplace', 'target': i, 'target_op': t, 'kw': kw, 'how': how})
+            bump('inplace-' + how)
+        bump('inplace-edit-then-rewrite')
     if case['kind'] == 'rewrite':
         from vf.checks import c14
         later_ops = []
@@ -398,6 +438,8 @@ def run_case(case, PROP):
             bump('origin-creation-time-left-to-library')
     if case['kind'] == 'retry' and rejected and run.data is not None:
         bump('retried-after-rejected-call')
+        if case.get('never_retried'):
+            bump('rejected-call-never-repeated')
     if run.data is not None:
         n_sa = sum(1 for i, o in enumerate(sp['ops']) if o.get('via') == 'set_attributes' and i < len(run.built.outcomes) and run.built.outcomes[i][0] == 'ok')
         if n_sa:
